@@ -190,7 +190,20 @@ func (s *kitRPCServer) Double(n int, resp *int) error {
 	*resp = v
 	return err
 }
-func (s *kitRPCServer) Cmd(a KitCmdArgs, _ *struct{}) error   { return s.impl.Cmd(a.Key, a.Val) }
+func (s *kitRPCServer) Cmd(a KitCmdArgs, _ *struct{}) error {
+	if a.Key == "dial-same" {
+		// a.Val dials of ONE id that the host never accepts (each waits for its ack in the background)
+		for i := 0; i < a.Val; i++ {
+			go func() {
+				if c, err := s.broker.Dial(77001); err == nil {
+					c.Close()
+				}
+			}()
+		}
+		return nil
+	}
+	return s.impl.Cmd(a.Key, a.Val)
+}
 func (s *kitRPCServer) Emit(a KitEmitArgs, _ *struct{}) error { return s.impl.Emit(a.Stdout, a.Stderr) }
 
 // Callback: the host accepted `id`; dial it, read a 4-byte nonce and echo it +1;
@@ -311,6 +324,15 @@ func (s *kitGRPCServer) PrintKV(ctx context.Context, r *grpctest.PrintKVRequest)
 	v := 0
 	if iv, ok := r.Value.(*grpctest.PrintKVRequest_ValueInt); ok {
 		v = int(iv.ValueInt)
+	}
+	if r.Key == "listen-same" {
+		// v brokered listeners for ONE id that the host never dials
+		for i := 0; i < v; i++ {
+			if _, err := s.broker.Accept(77001); err != nil {
+				return nil, err
+			}
+		}
+		return &grpctest.PrintKVResponse{}, nil
 	}
 	if r.Key == "listen" {
 		// v brokered listeners of the plugin's own, left open and unserved
@@ -474,6 +496,10 @@ func (k *kitGRPCClient) AcceptOnce() error {
 	}
 	return err
 }
+
+// DupAdvert: the plugin advertises one brokered id twice; the host never asks for it.
+func (k *kitGRPCClient) DupAdvert() error { return k.Cmd("listen-same", 2) }
+func (k *kitRPCClient) DupAdvert() error  { return k.Cmd("dial-same", 2) }
 
 // Listeners: n brokered listeners on the host side and n on the plugin side, all left open and unserved.
 func (k *kitGRPCClient) Listeners(n int) error {
